@@ -479,7 +479,7 @@ func (o *c20Origin) ServeHTTP(w http.ResponseWriter, r *http.Request) {
 			}
 		}
 	}
-	http.ServeContent(w, r, filepath.Base(r.URL.Path), time.Time{}, bytes.NewReader(data))
+	http.ServeContent(&dribbleWriter{ResponseWriter: w}, r, filepath.Base(r.URL.Path), time.Time{}, bytes.NewReader(data)) // short reads, as over a real network
 }
 
 var reMatched = regexp.MustCompile(`(\d+)/(\d+) blocks matched`)
